@@ -48,7 +48,7 @@ func init() {
 			"(D1) every panic statement and every call of a process-terminating library function (os.Exit, log.Fatal*/Panic*, zap Fatal/Panic) in reachable code is one obligation; it is a violation when a branch condition that decides whether it executes derives by value flow from a handler's request parameter (operands to results, call arguments to results and to the parameters of module callees, stored values and out-parameters to local cells; contexts excluded), or when it is unconditional up to a handler. The panics go/ssa synthesises for select dispatch are not source panics and are skipped. " +
 			"(D2) the pointer fields of a handler receiver type that a reachable function sets to nil are nullable (today: the account group context, cleared on deactivation). Every dereference of a value read from such a field, or returned by a function that may return it (accessor summaries), must be dominated by the non-nil side of a nil test of that same value; a test of another read of the field, or an assignment of a non-nil value to it, counts only while a lock of the owning struct is held from there to the use. " +
 			"(D3) pointer-to-message fields of a handler's request parameter are nullable (proto3 leaves them nil when absent): a field access, or passing the value to a module function whose summary says it dereferences that parameter on a path without a nil test (generated getters come out nil-safe from their bodies), must be dominated by a nil test of the value or of another read of the same request field. " +
-			"(D4) a module function with a return that carries nil (or a nullable value) together with a nil error is a nullable source for all its callers; a function that returns nil with a non-nil error is a nullable source at the points not dominated by the nil side of a test of that call's error (helpers that hand back the error they were given are seen through). Correlated results are honoured (the comma-ok idiom of module functions): when every nil-without-error return of the callee carries the same constant in one of its bool results and every other success return carries the opposite constant, a use dominated by the side of a test of that result, of that very call, on which it has the opposite value is guarded; wrappers that pass the value on only on that side therefore do not become nullable sources themselves.One obligation per (caller, callee) pair in reachable code. The same engine is also run on the module's remaining non-test functions (the exported API no handler reaches, e.g. WeshOrbitDB.OpenGroupReplication); what it finds there is outside the property and is only written to the notes, prefixed \"outside the property's scope:\". " +
+			"(D4) a module function with a return that carries nil (or a nullable value) together with a nil error is a nullable source for all its callers; a function that returns nil with a non-nil error is a nullable source at the points not dominated by the nil side of a test of that call's error (helpers that hand back the error they were given are seen through). Correlated results are honoured (the comma-ok idiom of module functions): when every nil-without-error return of the callee carries the same constant in one of its bool results and every other success return carries the opposite constant, a use dominated by the side of a test of that result, of that very call, on which it has the opposite value is guarded; wrappers that pass the value on only on that side therefore do not become nullable sources themselves, and a function that returns the value together with that very flag of the same call (return f()) inherits the correlation, merged with its own constant returns. Return statements the compiler merged into one return of phis are read per predecessor, and a named result that no store can reach on the way to a bare return counts as its zero value.One obligation per (caller, callee) pair in reachable code. The same engine is also run on the module's remaining non-test functions (the exported API no handler reaches, e.g. WeshOrbitDB.OpenGroupReplication); what it finds there is outside the property and is only written to the notes, prefixed \"outside the property's scope:\". " +
 			"(D5) in the exported functions of pkg/cryptoutil, every slice expression with a bound, index expression or slice-to-array conversion on a byte slice must be control-dependent on a comparison involving len of that same slice. " +
 			"(D6) every module call of a library function that panics when a byte-slice argument has the wrong length (table read off the module's actual callees: ed25519.NewKeyFromSeed 32, ed25519.Sign/PrivateKey.Sign 64, ed25519.Verify 32, PrivateKey.Seed/Public >= 32, cipher.NewCTR/CBC/CFB/OFB IV == block size, AEAD Seal/Open nonce == nonce size, binary.ByteOrder (Put)UintN >= N/8, a []byte key boxed into aead/ecdh ComputeSecret 32) and every slice-to-array conversion is one obligation. The required length must hold on every path: slice of a fixed-size array or with constant bounds, make with a constant (or, for run-time sizes, [:n] / make(n)), result of a module function whose returns all have it, parameter for which every static module caller has it, X25519 shared secret, io.ReadAll(io.LimitReader(hkdf, K)) on the nil-error side (an HKDF stream delivers 255 hash lengths before failing, so a nil error means exactly K bytes), or a comparison of len of the same value (or of another read of the same access path) with a constant whose outcome on the dominating edge gives the bound: a comparison with the wrong constant does not count. If it does not hold, the site is a violation when the bytes derive from a handler's request (D1's value flow), are read from a field of a protobuf message, or reach the call as the argument of an exported pkg/cryptoutil function (module callers, when there are any, count for establishing the length, not for trusting the bytes); otherwise it is listed as an internal buffer. For run-time sizes (block size, nonce size) an equality test against any run-time value or any constant length is accepted as written. " +
 			"(D7) for every close(ch) in reachable code whose channel can be traced to make(chan) instructions (through local variables, variables captured by closures, phis and the arguments of static calls): every send on the same channel objects must run on the same goroutine as the close, and no second close may follow it. A function runs on goroutine go:<f> when it is the target of a go statement, otherwise on the goroutines of its callers (a closure that is called, deferred or handed to a callee runs on its creator's goroutine). A close in the creating function on a path that shares no CFG path with the go statement that starts the sender (early error return before the goroutine is started) is accepted; a deferred close counts from its defer statement. Closes of channels held in struct fields, maps or returned by calls are listed in the notes as not decided; synchronisation that orders a foreign close after the last send (WaitGroup) is not recognised and would be reported. " +
@@ -240,6 +240,11 @@ type c19Origin struct {
 	OnErr  ssa.Value // non-nil: nil only together with a non-nil error, which is this value
 	Needs  string    // extra requirement that was not met (lock)
 	Callee *ssa.Function
+	// result of a call whose callee returns nil only together with the constant FlagNil in its
+	// bool result FlagIdx (FlagCall == nil: no such correlation)
+	FlagCall *ssa.Call
+	FlagIdx  int
+	FlagNil  bool
 }
 
 type c19Ret struct {
@@ -714,7 +719,11 @@ func (n *c19Nil) resultOrigin(call *ssa.Call, idx int, v ssa.Value, at c19At) *c
 		if cls == "" || cls == "param" {
 			cls = "result"
 		}
-		return &c19Origin{Class: cls, Desc: "result of " + fnName(sf) + ", which " + succ.Why, Src: v, Callee: sf}
+		o := &c19Origin{Class: cls, Desc: "result of " + fnName(sf) + ", which " + succ.Why, Src: v, Callee: sf}
+		if succ.FlagIdx >= 0 {
+			o.FlagCall, o.FlagIdx, o.FlagNil = call, succ.FlagIdx, succ.FlagNil
+		}
+		return o
 	}
 	errv := errVerdict(call)
 	if errv != nil && c19AcceptDominates(errv, at) {
@@ -856,7 +865,10 @@ func (n *c19Nil) retNil(fn *ssa.Function, idx int) *c19Ret {
 		nilT, nilF, okT, okF, other bool
 	}
 	flags := map[int]*flagObs{}
-	observe := func(rr []ssa.Value, isNil bool) {
+	// observe: a success return whose result idx is nil (isNil) or not. via: the nil-ness comes
+	// from a call whose callee has a correlated flag; a bool result that is that very flag,
+	// passed on unchanged (return f()), inherits the correlation instead of breaking it.
+	observe := func(r *ssa.Return, rr []ssa.Value, isNil bool, via *c19Origin) {
 		for k := 0; k < fn.Signature.Results().Len() && k < len(rr); k++ {
 			if k == idx || !isBoolType(fn.Signature.Results().At(k).Type()) {
 				continue
@@ -866,7 +878,20 @@ func (n *c19Nil) retNil(fn *ssa.Function, idx int) *c19Ret {
 				fo = &flagObs{}
 				flags[k] = fo
 			}
+			if via != nil && via.FlagCall != nil {
+				if ex, ok := rr[k].(*ssa.Extract); ok && ex.Tuple == ssa.Value(via.FlagCall) && ex.Index == via.FlagIdx {
+					if via.FlagNil {
+						fo.nilT, fo.okF = true, true
+					} else {
+						fo.nilF, fo.okT = true, true
+					}
+					continue
+				}
+			}
 			b, isConst := constBool(rr[k])
+			if !isConst && c19ZeroAtReturn(rr[k], r) {
+				b, isConst = false, true // named result never assigned on the paths to this return
+			}
 			switch {
 			case !isConst:
 				fo.other = true
@@ -887,29 +912,29 @@ func (n *c19Nil) retNil(fn *ssa.Function, idx int) *c19Ret {
 		return res
 	}
 	eidx := errResultIndex(fn.Signature)
-	for _, r := range returnsOf(fn) {
-		rr := retResults(r)
+	for _, rv := range c19ReturnVariants(fn) {
+		r, rr, at := rv.R, rv.RR, rv.At
 		if idx >= len(rr) {
 			continue
 		}
 		val := rr[idx]
-		if eidx >= 0 && eidx != idx && eidx < len(rr) && n.nonNilErr(rr[eidx], r.Block(), 0) {
+		if eidx >= 0 && eidx != idx && eidx < len(rr) && n.nonNilErr(rr[eidx], at.block(), 0) {
 			if isNilConst(val) {
 				res.OnError = true
 			}
 			continue
 		}
-		if isNilConst(val) {
-			observe(rr, true)
+		if isNilConst(val) || c19ZeroAtReturn(val, r) {
+			observe(r, rr, true, nil)
 			if !res.OnSuccess {
 				res.OnSuccess, res.Class = true, "result"
 				res.Why = "returns nil without an error (" + n.c.pos(posOf(r)) + ")"
 			}
 			continue
 		}
-		o := n.originForReturn(val, r)
+		o := n.originForReturn(val, at)
 		if o == nil {
-			observe(rr, false)
+			observe(r, rr, false, nil)
 			continue
 		}
 		if o.OnErr != nil && eidx >= 0 && eidx < len(rr) && rr[eidx] == o.OnErr {
@@ -917,7 +942,7 @@ func (n *c19Nil) retNil(fn *ssa.Function, idx int) *c19Ret {
 			res.OnError = true
 			continue
 		}
-		observe(rr, true)
+		observe(r, rr, true, o)
 		if !res.OnSuccess {
 			res.OnSuccess, res.Class = true, o.Class
 			res.Why = "can return the " + o.Desc + " without an error (" + n.c.pos(posOf(r)) + ")"
@@ -944,16 +969,82 @@ func (n *c19Nil) retNil(fn *ssa.Function, idx int) *c19Ret {
 	return res
 }
 
+// c19ZeroAtReturn: v is the load of a local result cell that no store can have written on any
+// path to return r (bare return of a named result that was never assigned): the zero value.
+func c19ZeroAtReturn(v ssa.Value, r *ssa.Return) bool {
+	ld, ok := v.(*ssa.UnOp)
+	if !ok || ld.Op != token.MUL {
+		return false
+	}
+	al, ok := ld.X.(*ssa.Alloc)
+	if !ok || al.Parent() != r.Parent() || al.Referrers() == nil || (al.Heap && closureWrites(al)) {
+		return false
+	}
+	for _, ref := range *al.Referrers() {
+		switch u := ref.(type) {
+		case *ssa.Store:
+			if u.Addr != ssa.Value(al) {
+				return false
+			}
+			if u.Block() == r.Block() || reach(u.Block(), nil)[r.Block()] {
+				return false
+			}
+		case *ssa.UnOp, *ssa.DebugRef:
+		default:
+			return false // address taken
+		}
+	}
+	return true
+}
+
+// c19RetVariant: one way of leaving the function: a return instruction, or, when the returned
+// values are phis of the return's own block (several return statements merged by the compiler),
+// the return taken from one predecessor, with the values that predecessor supplies.
+type c19RetVariant struct {
+	R  *ssa.Return
+	RR []ssa.Value
+	At c19At
+}
+
+func c19ReturnVariants(fn *ssa.Function) []c19RetVariant {
+	var out []c19RetVariant
+	for _, r := range returnsOf(fn) {
+		rr := retResults(r)
+		b := r.Block()
+		split := false
+		for _, v := range rr {
+			if ph, ok := v.(*ssa.Phi); ok && ph.Block() == b {
+				split = true
+			}
+		}
+		if !split || len(b.Preds) == 0 {
+			out = append(out, c19RetVariant{r, rr, c19AtInstr(r)})
+			continue
+		}
+		for i, pred := range b.Preds {
+			vr := make([]ssa.Value, len(rr))
+			for k, v := range rr {
+				vr[k] = v
+				if ph, ok := v.(*ssa.Phi); ok && ph.Block() == b && i < len(ph.Edges) {
+					vr[k] = ph.Edges[i]
+				}
+			}
+			out = append(out, c19RetVariant{r, vr, c19At{E: &edge{pred, b}}})
+		}
+	}
+	return out
+}
+
 // originForReturn: like origin, and a nil constant merged into the returned value counts.
-func (n *c19Nil) originForReturn(v ssa.Value, r *ssa.Return) *c19Origin {
-	if ph, ok := v.(*ssa.Phi); ok && !c19Guarded(ph, c19AtInstr(r)) {
+func (n *c19Nil) originForReturn(v ssa.Value, at c19At) *c19Origin {
+	if ph, ok := v.(*ssa.Phi); ok && !c19Guarded(ph, at) {
 		for _, e := range ph.Edges {
 			if isNilConst(e) {
 				return &c19Origin{Class: "result", Desc: "nil value of a variable that is not assigned on every path", Src: ph}
 			}
 		}
 	}
-	return n.origin(v, c19AtInstr(r), nil)
+	return n.origin(v, at, nil)
 }
 
 // derefsParam: fn dereferences its parameter j on some path without a nil test.
